@@ -42,3 +42,40 @@ package decorator
 //@ lit#0 ensures[C07] "passes-sell-when-invested" old(stopLossAt) != 0 && action == 0 - 1 ==> ret == 0 - 1
 //@ lit#0 ensures[C07] "sell-only-when-invested" ret == 0 - 1 ==> old(stopLossAt) != 0 && stopLossAt == 0 && (action == 0 - 1 || closing <= old(stopLossAt))
 //@ lit#0 ensures[C07] "hold-keeps-position" ret == 0 ==> stopLossAt == old(stopLossAt)
+
+// ---- reports (C14): every column has one value per date row; rows carry that date's close, annotation, outcome ----
+//@ func InverseStrategy.Report
+//@ requires consumed(c) == 0 && (forall k :: 0 <= k && k < len(c) ==> c[k].Close > 0)
+//@ ensures[C14] "column-count" len(result.Columns) == 3
+//@ ensures[C14] "one-value-per-date" len(c) > 0 && (len(c) >= warmup(i.InnerStrategy)) ==> (forall i :: 0 <= i && i < len(result.Columns) ==> len(col(result.Columns[i])) == len(result.Date))
+//@ ensures[C14] "dates" len(c) > 0 && (len(c) >= warmup(i.InnerStrategy)) ==> len(result.Date) <= len(c) && (forall k :: 0 <= k && k < len(result.Date) ==> result.Date[k] == c[k + len(c) - len(result.Date)].Date)
+//@ ensures[C14] "close" len(c) > 0 && (len(c) >= warmup(i.InnerStrategy)) ==> (forall k :: 0 <= k && k < len(result.Date) ==> colnum(result.Columns[0])[k] == c[k + len(c) - len(result.Date)].Close)
+//@ ensures[C14] "annotation" len(c) > 0 && (len(c) >= warmup(i.InnerStrategy)) ==> (forall k :: 0 <= k && k < len(result.Date) ==> colstr(result.Columns[1])[k] == (normS(res(InverseStrategy_Compute), k + len(c) - len(result.Date)) == 0 - 1 ? "S" : (normS(res(InverseStrategy_Compute), k + len(c) - len(result.Date)) == 1 ? "B" : "")))
+//@ ensures[C14] "outcome" len(c) > 0 && (len(c) >= warmup(i.InnerStrategy)) ==> (forall k :: 0 <= k && k < len(result.Date) ==> colnum(result.Columns[2])[k] == res(Outcome)[k + len(c) - len(result.Date)] * 100)
+//@ ensures[C03] consumed(c) == len(c)
+//@ use nlast_hold(res(InverseStrategy_Compute), len(res(InverseStrategy_Compute)) - len(arg(ActionsToAnnotations, 0, 0)), len(res(InverseStrategy_Compute)) - len(arg(ActionsToAnnotations, 0, 0)))
+//@ use nlast_skip(res(InverseStrategy_Compute), arg(ActionsToAnnotations, 0, 0), len(res(InverseStrategy_Compute)) - len(arg(ActionsToAnnotations, 0, 0)))
+
+//@ func NoLossStrategy.Report
+//@ requires consumed(c) == 0 && (forall k :: 0 <= k && k < len(c) ==> c[k].Close > 0)
+//@ ensures[C14] "column-count" len(result.Columns) == 3
+//@ ensures[C14] "one-value-per-date" len(c) > 0 ==> (forall i :: 0 <= i && i < len(result.Columns) ==> len(col(result.Columns[i])) == len(result.Date))
+//@ ensures[C14] "dates" len(c) > 0 ==> len(result.Date) <= len(c) && (forall k :: 0 <= k && k < len(result.Date) ==> result.Date[k] == c[k + len(c) - len(result.Date)].Date)
+//@ ensures[C14] "close" len(c) > 0 ==> (forall k :: 0 <= k && k < len(result.Date) ==> colnum(result.Columns[0])[k] == c[k + len(c) - len(result.Date)].Close)
+//@ ensures[C14] "annotation" len(c) > 0 ==> (forall k :: 0 <= k && k < len(result.Date) ==> colstr(result.Columns[1])[k] == (normS(res(NoLossStrategy_Compute), k + len(c) - len(result.Date)) == 0 - 1 ? "S" : (normS(res(NoLossStrategy_Compute), k + len(c) - len(result.Date)) == 1 ? "B" : "")))
+//@ ensures[C14] "outcome" len(c) > 0 ==> (forall k :: 0 <= k && k < len(result.Date) ==> colnum(result.Columns[2])[k] == res(Outcome)[k + len(c) - len(result.Date)] * 100)
+//@ ensures[C03] consumed(c) == len(c)
+//@ use nlast_hold(res(NoLossStrategy_Compute), len(res(NoLossStrategy_Compute)) - len(arg(ActionsToAnnotations, 0, 0)), len(res(NoLossStrategy_Compute)) - len(arg(ActionsToAnnotations, 0, 0)))
+//@ use nlast_skip(res(NoLossStrategy_Compute), arg(ActionsToAnnotations, 0, 0), len(res(NoLossStrategy_Compute)) - len(arg(ActionsToAnnotations, 0, 0)))
+
+//@ func StopLossStrategy.Report
+//@ requires consumed(c) == 0 && 0 <= s.Percentage && s.Percentage < 1 && (forall k :: 0 <= k && k < len(c) ==> c[k].Close > 0)
+//@ ensures[C14] "column-count" len(result.Columns) == 3
+//@ ensures[C14] "one-value-per-date" len(c) > 0 ==> (forall i :: 0 <= i && i < len(result.Columns) ==> len(col(result.Columns[i])) == len(result.Date))
+//@ ensures[C14] "dates" len(c) > 0 ==> len(result.Date) <= len(c) && (forall k :: 0 <= k && k < len(result.Date) ==> result.Date[k] == c[k + len(c) - len(result.Date)].Date)
+//@ ensures[C14] "close" len(c) > 0 ==> (forall k :: 0 <= k && k < len(result.Date) ==> colnum(result.Columns[0])[k] == c[k + len(c) - len(result.Date)].Close)
+//@ ensures[C14] "annotation" len(c) > 0 ==> (forall k :: 0 <= k && k < len(result.Date) ==> colstr(result.Columns[1])[k] == (normS(res(StopLossStrategy_Compute), k + len(c) - len(result.Date)) == 0 - 1 ? "S" : (normS(res(StopLossStrategy_Compute), k + len(c) - len(result.Date)) == 1 ? "B" : "")))
+//@ ensures[C14] "outcome" len(c) > 0 ==> (forall k :: 0 <= k && k < len(result.Date) ==> colnum(result.Columns[2])[k] == res(Outcome)[k + len(c) - len(result.Date)] * 100)
+//@ ensures[C03] consumed(c) == len(c)
+//@ use nlast_hold(res(StopLossStrategy_Compute), len(res(StopLossStrategy_Compute)) - len(arg(ActionsToAnnotations, 0, 0)), len(res(StopLossStrategy_Compute)) - len(arg(ActionsToAnnotations, 0, 0)))
+//@ use nlast_skip(res(StopLossStrategy_Compute), arg(ActionsToAnnotations, 0, 0), len(res(StopLossStrategy_Compute)) - len(arg(ActionsToAnnotations, 0, 0)))
